@@ -348,14 +348,17 @@ def strip_chars(pieces, chars):
 
 
 def replace_all_char(pieces, old, new):
-    """s.replace(old, new) for a single character `old`, on the structure: exact when no symbolic piece can contain `old`
-    (then every occurrence lies in a constant piece); UNKNOWN otherwise"""
-    if len(old) != 1:
+    """s.replace(old, new) on the structure, for a constant `old` of one or more characters: exact when no symbolic piece can
+    contain a character of `old` and no occurrence can be formed across a possibly empty symbolic piece by its constant
+    neighbours (then every occurrence lies inside one constant piece); UNKNOWN otherwise"""
+    if len(old) < 1:
         return UNKNOWN
     out = []
-    for pc in pieces:
+    for i, pc in enumerate(pieces):
         if pc.const is None:
             if avoids_chars(pc.regex, old) is not True:
+                return UNKNOWN
+            if len(old) > 1 and never_empty(pc.regex) is not True and _straddles(pieces, i, old):
                 return UNKNOWN
             out.append(pc)
         else:
